@@ -1426,10 +1426,12 @@ class Interp:
                 raise Unsupported("nonlocal target not found")
             frame.locals[t.id] = v
         elif isinstance(t, (ast.Tuple, ast.List)):
+            stars = [k for k, e in enumerate(t.elts) if isinstance(e, ast.Starred)]
+            if stars:
+                self.assign_starred(t, stars, v, frame)
+                return
             items = self.fixed_items(v, len(t.elts), t)
             for e, x in zip(t.elts, items):
-                if isinstance(e, ast.Starred):
-                    raise Unsupported("starred assignment")
                 self.assign(e, x, frame)
         elif isinstance(t, ast.Attribute):
             o = self.eval(t.value, frame)
@@ -1440,6 +1442,34 @@ class Interp:
             self.store_subscript(o, k, v, t)
         else:
             raise Unsupported(f"assignment target {type(t).__name__}")
+
+    def assign_starred(self, t, stars, v, frame):
+        """`a, *rest, z = v`: the starred name gets a NEW list of the middle items"""
+        if len(stars) != 1:
+            raise Unsupported("more than one starred target")
+        k = stars[0]
+        before, after = t.elts[:k], t.elts[k + 1 :]
+        fixed = len(before) + len(after)
+        if isinstance(v, (STuple, SList)):
+            if len(v.items) < fixed:
+                self.raise_exc(ValueError, "unpack", t)
+            items = v.items
+            mid = SList(list(items[len(before) : len(items) - len(after)]))
+            heads, tails = items[: len(before)], items[len(items) - len(after) :]
+        elif isinstance(v, ZVal) and isinstance(v.ty, TSeq):
+            n = z3.Length(v.t)
+            self.check_or_raise(n >= fixed, ValueError, "unpack", t)
+            heads = [wrap(v.ty.elem, v.t[i]) for i in range(len(before))]
+            tails = [wrap(v.ty.elem, v.t[n - len(after) + i]) for i in range(len(after))]
+            mty = TSeq(v.ty.elem)
+            mid = ZVal(mty, Cell(z3.Extract(v.t, z3.IntVal(len(before)), n - fixed)))
+        else:
+            raise Unsupported(f"starred unpack of {v!r}")
+        for e, x in zip(before, heads):
+            self.assign(e, x, frame)
+        self.assign(t.elts[k].value, mid, frame)
+        for e, x in zip(after, tails):
+            self.assign(e, x, frame)
 
     def fixed_items(self, v, n, node=None):
         if isinstance(v, (STuple, SList)):
